@@ -1,12 +1,14 @@
 package props
 
 import (
+	"bytes"
 	"encoding/json"
 	"fmt"
 	"strings"
 
 	"github.com/cybergarage/go-redis/redis"
 	"verif/fw"
+	"verif/grammar"
 	"verif/resp"
 	"verif/seq"
 	"verif/srv"
@@ -173,6 +175,50 @@ func c11Run(c *fw.Ctx) {
 			run([][]byte{a.Bytes, b.Bytes}, []string{a.Label, b.Label})
 		}
 	}
+	// size ladder: a request with a large value, cut around its structural positions
+	ladder := map[int]bool{}
+	for k := 6; k <= 16; k++ {
+		for d := -1; d <= 1; d++ {
+			ladder[1<<k+d] = true
+		}
+	}
+	for _, n := range []int{100, 1000, 10000} {
+		ladder[n-1], ladder[n] = true, true
+	}
+	for _, L := range sortedInts(ladder) {
+		if !c.Mine() {
+			continue
+		}
+		big := strings.Repeat("ab\r\n$1\r\n", L/8+1)[:L]
+		reqs := [][]byte{grammar.Encode([]string{"PING"}), grammar.Encode([]string{"SET", "k", big}), grammar.Encode([]string{"ECHO", "x"})}
+		labels := []string{"PING|valid", fmt.Sprintf("SET|ladder-%d", L), "ECHO|valid"}
+		start := len(reqs[0]) + bytes.Index(reqs[1], []byte(big))
+		marks := []int{len(reqs[0]), start, start + L, len(reqs[0]) + len(reqs[1]), len(reqs[0]) + len(reqs[1]) + len(reqs[2])}
+		cuts := map[int]bool{}
+		for _, m := range marks {
+			for d := -6; d <= 6; d++ {
+				if k := m + d; k >= 0 && k <= marks[len(marks)-1] {
+					cuts[k] = true
+				}
+			}
+		}
+		for k := start; k < start+L; k += 4096 {
+			cuts[k] = true
+		}
+		for _, cut := range sortedInts(cuts) {
+			for _, mode := range []string{"eof", "reset", "reset+write-fails@1"} {
+				cs := c11Case{Requests: reqs, Labels: labels, Cut: cut, Reset: mode != "eof"}
+				if strings.HasSuffix(mode, "@1") {
+					cs.FailWriteFrom = 1
+				}
+				c.Eval()
+				c.Nontrivial()
+				if clause, detail := c11Check(cs); clause != "" {
+					c.Violation("C11|SET-ladder|"+strings.SplitN(mode, "@", 2)[0]+"|"+clause, detail+fmt.Sprintf(" value length %d, cut %d", L, cut), cs)
+				}
+			}
+		}
+	}
 	if c.Thorough() {
 		for _, a := range reps {
 			for _, b := range reps {
@@ -203,7 +249,7 @@ func init() {
 	fw.Register(&fw.Prop{
 		ID:          "C11",
 		Level:       "fault_enumeration",
-		Rule:        "pipelines of 1 valid request (every valid shape of the catalogue, <=4 per command in quick, plus requests with optional tails such as 'LPOP k 5', 'PING m', 'SET k v EX 5', pair lists, 2- and 3-digit lengths) and of 2 requests (representative x valid; thorough: representative triples); EVERY byte offset 0..len as the point where the stream ends x {half-close: Read->EOF, writes succeed; full close: Read->ECONNRESET, writes fail afterwards; full close noticed early: reply write #1 or #2 and all later ones fail while the bytes sent before the close are still readable} x {whole, 1-byte delivery}. Oracle: recorded handler calls = the calls of exactly the completely delivered requests (taken from running each alone), their replies once and in order (half-close), then loop returned, transport closed, registry empty. Non-trivial = distinct (pipeline, cut, close mode).",
+		Rule:        "pipelines of 1 valid request (every valid shape of the catalogue, <=4 per command in quick, plus requests with optional tails such as 'LPOP k 5', 'PING m', 'SET k v EX 5', pair lists, 2- and 3-digit lengths) and of 2 requests (representative x valid; thorough: representative triples); EVERY byte offset 0..len as the point where the stream ends x {half-close: Read->EOF, writes succeed; full close: Read->ECONNRESET, writes fail afterwards; full close noticed early: reply write #1 or #2 and all later ones fail while the bytes sent before the close are still readable} x {whole, 1-byte delivery}. Size ladder: PING, SET k <L bytes>, ECHO x for L around every power of two up to 65537 and 10^2..10^4, cut within 6 bytes of every structural position and every 4096 bytes inside the value. Oracle: recorded handler calls = the calls of exactly the completely delivered requests (taken from running each alone), their replies once and in order (half-close), then loop returned, transport closed, registry empty. Non-trivial = distinct (pipeline, cut, close mode).",
 		Assumptions: []string{"an error reply written for the partial request itself is tolerated; any handler call or non-error reply for it is a violation"},
 		Run:         c11Run,
 		Replay:      c11Replay,
